@@ -57,10 +57,10 @@ def isUnaryOp (op : Nat) : Bool := ScriptSpec.isUnaryNum op
 theorem unary_agree (T : TotalOracles) (c : Ctx) (leaf : Bytes) (annex : Option Bytes) (st : St) (s : ScriptSpec.State)
     (i : ScriptSpec.Instr) (idx pos : Nat) (hR : Rel c leaf annex st s) (hs : isUnaryOp i.op = true) :
     Agree c leaf annex (execOp c st i.op idx pos true) (ScriptSpec.execOpcode (envOf T c leaf annex) s i true pos) := by
-  obtain ⟨h1, h2, h3, h5, h6, h7, h8, h9, h10⟩ := hR
+  obtain ⟨h1, h2, h3, h5, h6, h7, h8, h9, h10, h11⟩ := hR
   obtain ⟨sstack, salt, scond, sop, scode, scsp, sw⟩ := s
   obtain ⟨stack, alt, exe, pbegin, opcnt, ed⟩ := st
-  simp only at h1 h2 h3 h5 h6 h7 h8 h9 h10
+  simp only at h1 h2 h3 h5 h6 h7 h8 h9 h10 h11
   subst h1 h2 h3 h5
   obtain ⟨iop, idata, iafter⟩ := i
   simp only [isUnaryOp, ScriptSpec.isUnaryNum, Bool.or_eq_true, beq_iff_eq] at hs
@@ -74,7 +74,7 @@ theorem unary_agree (T : TotalOracles) (c : Ctx) (leaf : Bytes) (annex : Option 
     (try (simp [agree_panic, bind, Except.bind, Res.bind]; done)) <;>
     simp [agree_ok, bind, Except.bind, Res.bind, pure, Except.pure, intBytes_eq_encode, boolBytes_eq] <;>
     (try split) <;>
-    exact ⟨by simp_all, rfl, rfl, rfl, h6, h7, h8, h9, h10⟩
+    exact ⟨by simp_all, rfl, rfl, rfl, h6, h7, h8, h9, h10, h11⟩
 
 theorem b2i_eq (b : Bool) : b2i b = ScriptSpec.bi b := rfl
 
@@ -134,10 +134,10 @@ theorem binary_agree (T : TotalOracles) (c : Ctx) (leaf : Bytes) (annex : Option
     (i : ScriptSpec.Instr) (idx pos : Nat) (hR : Rel c leaf annex st s) (hs : ScriptSpec.isBinaryNum i.op = true) :
     Agree c leaf annex (execOp c st i.op idx pos true) (ScriptSpec.execOpcode (envOf T c leaf annex) s i true pos) := by
   rw [execOp_bin c st i.op idx pos true hs, execOpcode_bin _ s i pos true hs]
-  obtain ⟨h1, h2, h3, h5, h6, h7, h8, h9, h10⟩ := hR
+  obtain ⟨h1, h2, h3, h5, h6, h7, h8, h9, h10, h11⟩ := hR
   obtain ⟨sstack, salt, scond, sop, scode, scsp, sw⟩ := s
   obtain ⟨stack, alt, exe, pbegin, opcnt, ed⟩ := st
-  simp only at h1 h2 h3 h5 h6 h7 h8 h9 h10
+  simp only at h1 h2 h3 h5 h6 h7 h8 h9 h10 h11
   subst h1 h2 h3 h5
   have hb := fun a b => binArith_eq i.op a b hs
   simp only [binBody, ScriptSpec.opBinaryNum, ScriptSpec.pushNum, ScriptSpec.push, hb]
@@ -158,9 +158,9 @@ theorem binary_agree (T : TotalOracles) (c : Ctx) (leaf : Bytes) (annex : Option
           by_cases hz : ScriptSpec.binaryNum 157 vb va = 0
           · simp [hz, agree_fail]
           · simp [hz, agree_ok]
-            exact ⟨rfl, rfl, rfl, rfl, h6, h7, h8, h9, h10⟩
+            exact ⟨rfl, rfl, rfl, rfl, h6, h7, h8, h9, h10, h11⟩
         · simp [h9d, agree_ok]
-          exact ⟨rfl, rfl, rfl, rfl, h6, h7, h8, h9, h10⟩
+          exact ⟨rfl, rfl, rfl, rfl, h6, h7, h8, h9, h10, h11⟩
 
 theorem execOp_within (c : Ctx) (st : St) (idx pos : Nat) (b : Bool) :
     execOp c st 0xa5 idx pos b =
@@ -177,10 +177,10 @@ theorem within_agree (T : TotalOracles) (c : Ctx) (leaf : Bytes) (annex : Option
   obtain ⟨iop, idata, iafter⟩ := i
   simp only at hs; subst hs
   rw [execOp_within]
-  obtain ⟨h1, h2, h3, h5, h6, h7, h8, h9, h10⟩ := hR
+  obtain ⟨h1, h2, h3, h5, h6, h7, h8, h9, h10, h11⟩ := hR
   obtain ⟨sstack, salt, scond, sop, scode, scsp, sw⟩ := s
   obtain ⟨stack, alt, exe, pbegin, opcnt, ed⟩ := st
-  simp only at h1 h2 h3 h5 h6 h7 h8 h9 h10
+  simp only at h1 h2 h3 h5 h6 h7 h8 h9 h10 h11
   subst h1 h2 h3 h5
   simp only [ScriptSpec.execOpcode, ScriptSpec.isShuffle, ScriptSpec.isUnaryNum, ScriptSpec.isBinaryNum, ScriptSpec.opWithin, ScriptSpec.push]
   rcases stack with _ | ⟨a, _ | ⟨b, _ | ⟨d, r⟩⟩⟩
@@ -198,24 +198,24 @@ theorem within_agree (T : TotalOracles) (c : Ctx) (leaf : Bytes) (annex : Option
         cases hrd3 : ScriptSpec.ScriptNum.read d (has c.flags VER_MINDATA) 4
         · simp [agree_panic, agree_fail, throw, throwThe, MonadExceptOf.throw, pure, Except.pure]
         · simp [agree_ok, pure, Except.pure, boolBytes_ofBool]
-          exact ⟨rfl, rfl, rfl, rfl, h6, h7, h8, h9, h10⟩
+          exact ⟨rfl, rfl, rfl, rfl, h6, h7, h8, h9, h10, h11⟩
 
 theorem depth_size_agree (T : TotalOracles) (c : Ctx) (leaf : Bytes) (annex : Option Bytes) (st : St) (s : ScriptSpec.State)
     (i : ScriptSpec.Instr) (idx pos : Nat) (hR : Rel c leaf annex st s) (hs : i.op = 0x74 ∨ i.op = 0x82) :
     Agree c leaf annex (execOp c st i.op idx pos true) (ScriptSpec.execOpcode (envOf T c leaf annex) s i true pos) := by
   obtain ⟨iop, idata, iafter⟩ := i
-  obtain ⟨h1, h2, h3, h5, h6, h7, h8, h9, h10⟩ := hR
+  obtain ⟨h1, h2, h3, h5, h6, h7, h8, h9, h10, h11⟩ := hR
   obtain ⟨sstack, salt, scond, sop, scode, scsp, sw⟩ := s
   obtain ⟨stack, alt, exe, pbegin, opcnt, ed⟩ := st
-  simp only at h1 h2 h3 h5 h6 h7 h8 h9 h10 hs
+  simp only at h1 h2 h3 h5 h6 h7 h8 h9 h10 h11 hs
   subst h1 h2 h3 h5
   rcases hs with h | h <;> subst h
   · simp [execOp, ScriptSpec.execOpcode, ScriptSpec.isShuffle, St.push, ScriptSpec.pushNum, ScriptSpec.push, intBytes_eq_encode, agree_ok, pure, Except.pure]
-    exact ⟨rfl, rfl, rfl, rfl, h6, h7, h8, h9, h10⟩
+    exact ⟨rfl, rfl, rfl, rfl, h6, h7, h8, h9, h10, h11⟩
   · rcases stack with _ | ⟨a, r⟩ <;>
       simp [execOp, ScriptSpec.execOpcode, ScriptSpec.isShuffle, St.push, ScriptSpec.pushNum, ScriptSpec.push, intBytes_eq_encode, agree_ok, agree_fail, pure, Except.pure,
         throw, throwThe, MonadExceptOf.throw]
-    exact ⟨rfl, rfl, rfl, rfl, h6, h7, h8, h9, h10⟩
+    exact ⟨rfl, rfl, rfl, rfl, h6, h7, h8, h9, h10, h11⟩
 
 
 
@@ -247,10 +247,10 @@ theorem pickroll_agree (T : TotalOracles) (c : Ctx) (leaf : Bytes) (annex : Opti
     Agree c leaf annex (execOp c st i.op idx pos true) (ScriptSpec.execOpcode (envOf T c leaf annex) s i true pos) := by
   rw [execOp_pickroll c st i.op idx pos true hs]
   obtain ⟨iop, idata, iafter⟩ := i
-  obtain ⟨h1, h2, h3, h5, h6, h7, h8, h9, h10⟩ := hR
+  obtain ⟨h1, h2, h3, h5, h6, h7, h8, h9, h10, h11⟩ := hR
   obtain ⟨sstack, salt, scond, sop, scode, scsp, sw⟩ := s
   obtain ⟨stack, alt, exe, pbegin, opcnt, ed⟩ := st
-  simp only at h1 h2 h3 h5 h6 h7 h8 h9 h10 hs
+  simp only at h1 h2 h3 h5 h6 h7 h8 h9 h10 h11 hs
   subst h1 h2 h3 h5
   have hspec : ScriptSpec.execOpcode (envOf T c leaf annex) { stack := stack, alt := alt, cond := condOf exe, opCount := opcnt, code := scode, codesepPos := scsp, weightLeft := sw } ⟨iop, idata, iafter⟩ true pos =
       ScriptSpec.opPickRoll (envOf T c leaf annex) { stack := stack, alt := alt, cond := condOf exe, opCount := opcnt, code := scode, codesepPos := scsp, weightLeft := sw } (iop == 0x7a) := by
@@ -272,15 +272,15 @@ theorem pickroll_agree (T : TotalOracles) (c : Ctx) (leaf : Bytes) (annex : Opti
         have hget : (b :: r)[n.toNat]? = some ((b :: r)[n.toNat]) := List.getElem?_eq_getElem hk
         rcases hs with h | h <;> subst h
         · simp [hrange, top_succ, hget, agree_ok]
-          exact ⟨rfl, rfl, rfl, rfl, h6, h7, h8, h9, h10⟩
+          exact ⟨rfl, rfl, rfl, rfl, h6, h7, h8, h9, h10, h11⟩
         · by_cases hpos : n > 0
           · simp [hrange, hget, hpos, agree_ok]
-            exact ⟨rfl, rfl, rfl, rfl, h6, h7, h8, h9, h10⟩
+            exact ⟨rfl, rfl, rfl, rfl, h6, h7, h8, h9, h10, h11⟩
           · have hn0 : n = 0 := by omega
             subst hn0
             have hlen0 : ¬ ((r.length : Int) + 1 ≤ 0) := by omega
             simp [hlen0, agree_ok]
-            exact ⟨rfl, rfl, rfl, rfl, h6, h7, h8, h9, h10⟩
+            exact ⟨rfl, rfl, rfl, rfl, h6, h7, h8, h9, h10, h11⟩
 
 
 theorem flag_cltv (f : Nat) : has f VER_CLTV = (ScriptSpec.Flags.ofMask f).cltv := by
@@ -307,16 +307,17 @@ theorem bts2intExt_eq (d : Bytes) (mx : Nat) (fm : Bool) :
       · simp [h1, h2, h3, pure, Except.pure]
 
 theorem codesep_agree (T : TotalOracles) (c : Ctx) (leaf : Bytes) (annex : Option Bytes) (st : St) (s : ScriptSpec.State)
-    (i : ScriptSpec.Instr) (idx pos : Nat) (hR : Rel c leaf annex st s) (hs : i.op = 0xab) (hidx : c.p.drop idx = i.after) :
+    (i : ScriptSpec.Instr) (idx pos : Nat) (hR : Rel c leaf annex st s) (hs : i.op = 0xab) (hidx : c.p.drop idx = i.after)
+    (hwfa : c.sv = .base → (ScriptSpec.parse c.p).2 = false → (ScriptSpec.parse i.after).2 = false ∧ i.after.length < 2 ^ 32) :
     Agree c leaf annex (execOp c st i.op idx pos true) (ScriptSpec.execOpcode (envOf T c leaf annex) s i true pos) := by
   obtain ⟨iop, idata, iafter⟩ := i
-  obtain ⟨h1, h2, h3, h5, h6, h7, h8, h9, h10⟩ := hR
+  obtain ⟨h1, h2, h3, h5, h6, h7, h8, h9, h10, h11⟩ := hR
   obtain ⟨sstack, salt, scond, sop, scode, scsp, sw⟩ := s
   obtain ⟨stack, alt, exe, pbegin, opcnt, ed⟩ := st
-  simp only at h1 h2 h3 h5 h6 h7 h8 h9 h10 hs hidx
+  simp only at h1 h2 h3 h5 h6 h7 h8 h9 h10 h11 hs hidx hwfa
   subst h1 h2 h3 h5 hs
   simp [execOp, isBinArith, ScriptSpec.execOpcode, ScriptSpec.isShuffle, ScriptSpec.isUnaryNum, ScriptSpec.isBinaryNum, agree_ok, pure, Except.pure]
-  exact ⟨rfl, rfl, rfl, rfl, hidx, rfl, h8, h9, h10⟩
+  exact ⟨rfl, rfl, rfl, rfl, hidx, rfl, h8, h9, h10, hwfa⟩
 
 theorem execOp_cltv (c : Ctx) (st : St) (idx pos : Nat) (b : Bool) :
     execOp c st 0xb1 idx pos b =
@@ -368,10 +369,10 @@ theorem cltv_agree (T : TotalOracles) (c : Ctx) (leaf : Bytes) (annex : Option B
   simp only at hs; subst hs
   rw [execOp_cltv, execOpcode_cltv]
   have hR' := hR
-  obtain ⟨h1, h2, h3, h5, h6, h7, h8, h9, h10⟩ := hR
+  obtain ⟨h1, h2, h3, h5, h6, h7, h8, h9, h10, h11⟩ := hR
   obtain ⟨sstack, salt, scond, sop, scode, scsp, sw⟩ := s
   obtain ⟨stack, alt, exe, pbegin, opcnt, ed⟩ := st
-  simp only at h1 h2 h3 h5 h6 h7 h8 h9 h10
+  simp only at h1 h2 h3 h5 h6 h7 h8 h9 h10 h11
   subst h1 h2 h3 h5
   simp only [ScriptSpec.opCltv, envOf_f, envOf_q, envOf_tx, ← flag_cltv, ← flag_mindata, ← flag_nops]
   by_cases hc : has c.flags VER_CLTV = true
@@ -447,10 +448,10 @@ theorem csv_agree (T : TotalOracles) (c : Ctx) (leaf : Bytes) (annex : Option By
   simp only at hs; subst hs
   rw [execOp_csv, execOpcode_csv]
   have hR' := hR
-  obtain ⟨h1, h2, h3, h5, h6, h7, h8, h9, h10⟩ := hR
+  obtain ⟨h1, h2, h3, h5, h6, h7, h8, h9, h10, h11⟩ := hR
   obtain ⟨sstack, salt, scond, sop, scode, scsp, sw⟩ := s
   obtain ⟨stack, alt, exe, pbegin, opcnt, ed⟩ := st
-  simp only at h1 h2 h3 h5 h6 h7 h8 h9 h10
+  simp only at h1 h2 h3 h5 h6 h7 h8 h9 h10 h11
   subst h1 h2 h3 h5
   simp only [ScriptSpec.opCsv, envOf_f, envOf_q, envOf_tx, ← flag_csv, ← flag_mindata, ← flag_nops]
   by_cases hc : has c.flags VER_CSV = true
